@@ -76,6 +76,8 @@ class Report:
             print(f"[{self.pid}]   expected one of: {rec.get('expected')!r}"[:600], flush=True)
         if "path" in rec:
             print(f"[{self.pid}]   after: {rec.get('path')!r}"[:600], flush=True)
+        if "init" in rec and len(repr(rec["init"])) < 700:
+            print(f"[{self.pid}]   from initial state: {rec.get('init')!r}"[:800], flush=True)
 
     def known(self, kid, text):
         if kid not in self.kf_seen:
